@@ -92,6 +92,15 @@ def programs(ctx):
     names = sorted(LABEL)
     rng = asm.rng_for(ctx.seed, "c04")
     framings = gen.FRAMINGS
+
+    def pres(name):
+        # "benign data before": plain data, and benign stdlib globals - in particular ones that carry the
+        # *same attribute name* as the entry under test (imported only, or called and discarded)
+        same = [b"cplatform\n" + name.encode() + b"\n0",
+                b"ccollections\n" + name.encode() + b"\n(tR0",
+                gen.push_global("STACK_GLOBAL", "copy", name) + b"0"]
+        return gen.BENIGN_PRE + same
+
     # A. import only
     for (m, n) in names:
         for r in ("GLOBAL", "STACK_GLOBAL"):
@@ -100,7 +109,7 @@ def programs(ctx):
                          "in_dict", "under_result"):
                 body = gen.apply_fate(g, fate)
                 for fr in framings:
-                    for pre in gen.BENIGN_PRE:
+                    for pre in pres(n):
                         for post in gen.BENIGN_POST:
                             if quick and rng.random() > 0.04:
                                 continue
@@ -117,7 +126,7 @@ def programs(ctx):
                 for fate in gen.FATES:
                     body = gen.apply_fate(call, fate)
                     for fr in framings:
-                        for pre in gen.BENIGN_PRE:
+                        for pre in pres(n):
                             for post in gen.BENIGN_POST:
                                 if quick and rng.random() > 0.025:
                                     continue
